@@ -243,6 +243,10 @@ type Origin struct {
 	Calls   []*Call
 	Handler Handler
 	Hook    func(call *Call) // scheduler point before answering
+	// Decorate makes the origin behave like an upstream RoundTripper that sends a modified COPY of the request (an
+	// authorising transport): the copy carries an Authorization field that changes from call to call, and the
+	// response's Request field points to the copy, as net/http's own transports do.
+	Decorate bool
 	tokSeq  int
 	Toks    map[string]*Tok
 }
@@ -262,6 +266,13 @@ type Tok struct {
 func NewOrigin() *Origin { return &Origin{Toks: map[string]*Tok{}} }
 
 func (o *Origin) RoundTrip(req *http.Request) (*http.Response, error) {
+	if o.Decorate {
+		req2 := req.Clone(req.Context())
+		o.mu.Lock()
+		req2.Header.Set("Authorization", fmt.Sprintf("Bearer token-%d", len(o.Calls)))
+		o.mu.Unlock()
+		req = req2
+	}
 	o.mu.Lock()
 	call := &Call{Seq: len(o.Calls), Method: req.Method, URL: req.URL.String(), Header: req.Header.Clone(), At: time.Now(), CtxErr: req.Context().Err(), Req: req, Gid: Gid()}
 	o.Calls = append(o.Calls, call)
